@@ -158,12 +158,3 @@ package blake2b
 //@ check_at "x.d.finalize(&x.block)" x.cfg[8] + x.cfg[9]*256 + x.cfg[10]*65536 + x.cfg[11]*16777216 == (x.nodeOffset + 4294967295) % 4294967296
 //@ check_at "x.d.finalize(&x.block)" x.cfg[0] == min(64, x.remaining) && 64 * (xnodes(x) - 1) == xpos(x)
 //@ canary ensures n == len(p)
-
-// New as seen by callers in other packages (nacl/box sealNonce): a fresh hash.Hash with an empty stream
-// for every legal size and key length. Trusted here (newDigest's parameter block is not interpreted).
-//@ func New
-//@ trusted
-//@ note constructor: not verified; assumed to succeed exactly for 1 <= size <= 64 and keys of at most 64 bytes
-//@ fresh result0
-//@ ensures iff(result1 == nil, 1 <= size && size <= 64 && len(key) <= 64)
-//@ ensures implies(result1 == nil, result0 != nil && spec.hsize(result0) == size && ghost(result0, hlen) == 0)
